@@ -13,6 +13,7 @@ import (
 	_ "verif/harness/checks/c11"
 	_ "verif/harness/checks/c12"
 	_ "verif/harness/checks/c13"
+	_ "verif/harness/checks/c14"
 	_ "verif/harness/checks/c15"
 	_ "verif/harness/checks/c16"
 	_ "verif/harness/checks/c17"
